@@ -97,6 +97,8 @@ pub struct TaskInfo {
     /// panic message if the task's root function unwound (other than by teardown)
     pub panicked: Option<String>,
     pub ever_blocked: bool,
+    /// how many times the task entered a blocked state (other than harness idle waits)
+    pub blocks: u64,
     pub steps: u64,
     pub parent: Option<TaskId>,
 }
@@ -125,7 +127,6 @@ struct TaskRec {
     info: TaskInfo,
     cv: Arc<Condvar>,
     timed_out: bool,
-    os: Option<std::thread::JoinHandle<()>>,
     prio: u64,
 }
 
@@ -162,6 +163,44 @@ pub struct KState {
 pub struct Kernel {
     m: Mutex<KState>,
     main_cv: Condvar,
+}
+
+type Job = Box<dyn FnOnce() + Send + 'static>;
+
+/// Task threads are pooled: creating and destroying an OS thread per simulated task serialises
+/// all worker threads of the batch driver on the process's address-space lock. A pooled thread is
+/// indistinguishable from a fresh one for the code under test (thread-locals of the simulator are
+/// reset per task; the code under test has none).
+static POOL: Mutex<Vec<std::sync::mpsc::Sender<Job>>> = Mutex::new(Vec::new());
+
+fn pool_run(job: Job) {
+    let mut job = Some(job);
+    loop {
+        let tx = POOL.lock().unwrap_or_else(|p| p.into_inner()).pop();
+        match tx {
+            Some(tx) => match tx.send(job.take().unwrap()) {
+                Ok(()) => return,
+                Err(e) => job = Some(e.0),
+            },
+            None => break,
+        }
+    }
+    let (tx, rx) = std::sync::mpsc::channel::<Job>();
+    let first = job.take().unwrap();
+    std::thread::Builder::new()
+        .name("sim-task".into())
+        .stack_size(512 * 1024)
+        .spawn(move || {
+            first();
+            loop {
+                POOL.lock().unwrap_or_else(|p| p.into_inner()).push(tx.clone());
+                match rx.recv() {
+                    Ok(j) => j(),
+                    Err(_) => break,
+                }
+            }
+        })
+        .expect("spawn sim task thread");
 }
 
 thread_local! {
@@ -342,13 +381,7 @@ impl Kernel {
                 Err(p) => p.into_inner().0,
             };
         }
-        let handles: Vec<_> = st.tasks.iter_mut().filter_map(|t| t.os.take()).collect();
         drop(st);
-        if error.is_none() {
-            for h in handles {
-                let _ = h.join();
-            }
-        }
         let main = slot.lock().ok().and_then(|mut g| g.take());
         RunResult {
             main,
@@ -381,12 +414,12 @@ impl Kernel {
                 label: String::new(),
                 panicked: None,
                 ever_blocked: false,
+                blocks: 0,
                 steps: 0,
                 parent,
             },
             cv: Arc::new(Condvar::new()),
             timed_out: false,
-            os: None,
             prio,
         });
         if let Some(hb) = st.hb.as_mut() {
@@ -401,51 +434,45 @@ impl Kernel {
             let mut st = self.lock();
             st.live_os += 1;
         }
-        let h = std::thread::Builder::new()
-            .name(format!("sim-task-{id}"))
-            .stack_size(512 * 1024)
-            .spawn(move || {
-                CURRENT.with(|c| *c.borrow_mut() = Some((k.clone(), id)));
-                // wait for the baton
-                let start = {
-                    let mut st = k.lock();
-                    loop {
-                        if st.aborting {
-                            break false;
-                        }
-                        if st.current == Some(id) {
-                            break true;
-                        }
-                        let cv = st.tasks[id].cv.clone();
-                        st = match cv.wait(st) {
-                            Ok(g) => g,
-                            Err(p) => p.into_inner(),
-                        };
-                    }
-                };
-                let mut panicked = None;
-                if start {
-                    let _ = take_last_panic();
-                    let r = panic::catch_unwind(AssertUnwindSafe(f));
-                    if let Err(p) = r {
-                        if !is_abort(&*p) {
-                            let msg = take_last_panic().unwrap_or_else(|| payload_to_string(&*p));
-                            panicked = Some(msg);
-                        }
-                    }
-                } else {
-                    // never started: drop the closure (and what it captured) in teardown mode
-                    let _ = panic::catch_unwind(AssertUnwindSafe(move || drop(f)));
-                }
-                k.finish_task(id, panicked);
-                CURRENT.with(|c| *c.borrow_mut() = None);
+        pool_run(Box::new(move || {
+            CURRENT.with(|c| *c.borrow_mut() = Some((k.clone(), id)));
+            // wait for the baton
+            let start = {
                 let mut st = k.lock();
-                st.live_os -= 1;
-                k.main_cv.notify_all();
-            })
-            .expect("spawn sim task thread");
-        let mut st = self.lock();
-        st.tasks[id].os = Some(h);
+                loop {
+                    if st.aborting {
+                        break false;
+                    }
+                    if st.current == Some(id) {
+                        break true;
+                    }
+                    let cv = st.tasks[id].cv.clone();
+                    st = match cv.wait(st) {
+                        Ok(g) => g,
+                        Err(p) => p.into_inner(),
+                    };
+                }
+            };
+            let mut panicked = None;
+            if start {
+                let _ = take_last_panic();
+                let r = panic::catch_unwind(AssertUnwindSafe(f));
+                if let Err(p) = r {
+                    if !is_abort(&*p) {
+                        let msg = take_last_panic().unwrap_or_else(|| payload_to_string(&*p));
+                        panicked = Some(msg);
+                    }
+                }
+            } else {
+                // never started: drop the closure (and what it captured) in teardown mode
+                let _ = panic::catch_unwind(AssertUnwindSafe(move || drop(f)));
+            }
+            k.finish_task(id, panicked);
+            CURRENT.with(|c| *c.borrow_mut() = None);
+            let mut st = k.lock();
+            st.live_os -= 1;
+            k.main_cv.notify_all();
+        }));
     }
 
     fn finish_task(self: &Arc<Self>, id: TaskId, panicked: Option<String>) {
@@ -707,6 +734,7 @@ impl Kernel {
         st.tasks[me].info.state = TState::Blocked { res, deadline };
         if res != IDLE_RES {
             st.tasks[me].info.ever_blocked = true;
+            st.tasks[me].info.blocks += 1;
         }
         st.tasks[me].timed_out = false;
         Self::note(&mut st, me, what, &[0xB0, res]);
@@ -850,6 +878,17 @@ pub fn task_table() -> Vec<TaskInfo> {
 pub fn event(what: impl FnOnce() -> String, h: &[u64]) {
     if let Some((k, me)) = current() {
         k.event(me, what, h);
+    }
+}
+
+/// (own scheduling steps, times blocked) of the calling task
+pub fn my_stats() -> (u64, u64) {
+    match current() {
+        Some((k, me)) => {
+            let st = k.lock();
+            (st.tasks[me].info.steps, st.tasks[me].info.blocks)
+        }
+        None => (0, 0),
     }
 }
 
